@@ -170,8 +170,12 @@ def run(tier):
         texts += s
         gen_states += r.distinct
         if not quick:
-            s, r = vlib.tlc_generate("addr/AddrTextGen", "AddrTextGen_sim_%s.cfg" % m, simulate=12000, depth=4, workers=4, timeout=900)
-            texts += s
+            # -simulate evaluates Emit on every successor it draws from, so a few dozen walks of 3 mutations already
+            # export ~10^5 strings with 2 and 3 mutations; a seeded sample of them is replayed
+            s, r = vlib.tlc_generate("addr/AddrTextGen", "AddrTextGen_sim_%s.cfg" % m, simulate=40, depth=4, workers=4, timeout=900)
+            s = list({string_of(x): x for x in s}.values())
+            rng.shuffle(s)
+            texts += s[:25000]
     u = {}
     for s in texts:
         u.setdefault(s["mode"] + "|" + string_of(s), s)
